@@ -35,7 +35,7 @@ func simpleProp(r *Rand) M {
 	}
 }
 
-// GenDeepSpec: a small specification dominated by deeply nested definitions (chains of object properties, 34..44 levels,
+// GenDeepSpec: a small specification dominated by deeply nested definitions (a chain of object properties, 34..40 levels,
 // a default at every level): most of its validation is spent deep inside the default / example walkers.
 func GenDeepSpec(r *Rand) M {
 	chain := func(depth int, tag string) M {
@@ -53,9 +53,9 @@ func GenDeepSpec(r *Rand) M {
 	}
 	defs := M{}
 	var names []string
-	for i := 0; i < 2; i++ {
+	for i := 0; i < 1; i++ {
 		n := fmt.Sprintf("Deep%d", i)
-		defs[n] = chain(r.Range(34, 44), fmt.Sprintf("k%d_", i))
+		defs[n] = chain(r.Range(34, 40), fmt.Sprintf("k%d_", i))
 		names = append(names, n)
 	}
 	return M{
